@@ -336,6 +336,14 @@ def run(ctx):
     _etch_backup(ctx)
     _discrete(ctx)
     _dispersive(ctx)
+    # the coefficient tables the devices index are in the same (common) material order as the permittivity table:
+    # C35's row rule, evaluated here because "parameter -> material" means one material for all arrays of a cell
+    from . import c35
+
+    n0 = len(ctx.obligations)
+    c35._material_rows(ctx)
+    for o in ctx.obligations[n0:]:
+        o.rule = "R18.6"
     ctx.require_count("C18", len(ctx.obligations), 25)
     ctx.trusted_base += ["prefix slicing of apply_params at the end of the device loop", "symbolic table lookup atoms for integer material indices", "indicator algebra for .at[device slice].set", "tree .at[name].set as functional attribute replacement"]
     ctx.assume("the device call returns the per-cell parameter on the simulation grid (transform chains and voxel expansion are outside this check)")
